@@ -1,6 +1,412 @@
-//! C12 — not built yet.
-use mcx::{Ctx, Value};
-pub fn run(_ctx: &Ctx, _replay: Option<&Value>) -> i32 {
-    eprintln!("C12: check not built yet");
-    2
+//! C12 — all lookups between trace components balance.
+//!
+//! For every program of the families P1 (+ shapes, + P2 in the thorough tier) and K stated challenge
+//! vectors:
+//!  (L2) terminal values: every auxiliary column returned by `build_aux_segment` has its specified
+//!       first value and, at the last non-random row, its specified terminal value (1 for the block
+//!       stack / block hash / op group tables and for b_chip; the program-hash row as the initial
+//!       value of the block hash table; the product of the kernel procedure rows for the chiplets
+//!       virtual table; the stack overflow table and b_range values the AIR asserts);
+//!  (L1) challenge-free recount from the main trace alone: the multiset of memory requests made by
+//!       stack rows equals the multiset of memory chiplet rows; the same for bitwise requests /
+//!       responses, for 16-bit range-check requests (u32 helper limbs + memory deltas) vs the range
+//!       table multiplicities, and for SYSCALL requests vs flagged kernel ROM rows;
+//!  attribution: a column that misses its terminal value is attributed to the operations of that
+//!       program that talk to the column and fail it in *every* program of the family that executes
+//!       them (an operation that also occurs in a balanced program is exonerated).
+
+use crate::airx::{self, Q};
+use crate::common::*;
+use crate::progs::{self, ProgCase};
+use mcx::{json, Ctx, Value};
+use rayon::prelude::*;
+use std::collections::{BTreeMap, BTreeSet};
+use vm_core::{Felt, FieldElement, StarkField};
+use winter_prover::Trace;
+
+const CLK: usize = 0;
+const CTXC: usize = 2;
+const OPB: usize = 9;
+const DEC_H: usize = 16;
+const HELPER0: usize = 18;
+const S0: usize = 32;
+const RANGE_M: usize = 51;
+const RANGE_V: usize = 52;
+const CHIP: usize = 53;
+
+const COLS: [&str; 7] = ["decoder_p1_block_stack", "decoder_p2_block_hash", "decoder_p3_op_group", "stack_p1_overflow", "b_range", "chiplets_vtable", "b_chip"];
+
+fn opname(o: u8) -> &'static str {
+    match o {
+        7 => "MLOAD", 44 => "MLOADW", 45 => "MSTORE", 46 => "MSTOREW", 83 => "MSTREAM", 82 => "PIPE", 89 => "RCOMBBASE", 38 => "U32AND", 39 => "U32XOR",
+        80 => "HPERM", 81 => "MPVERIFY", 96 => "MRUPDATE", 84 => "SPLIT", 85 => "LOOP", 86 => "SPAN", 87 => "JOIN", 88 => "DYN", 104 => "SYSCALL",
+        108 => "CALL", 112 => "END", 116 => "REPEAT", 120 => "RESPAN", 124 => "HALT", 100 => "PUSH",
+        64 => "U32ADD", 66 => "U32SUB", 68 => "U32MUL", 70 => "U32DIV", 72 => "U32SPLIT", 74 => "U32ASSERT2", 76 => "U32ADD3", 78 => "U32MADD",
+        _ => "",
+    }
+}
+
+/// operations that talk to a given auxiliary column (docs/src/design/lookups, decoder/main.md, chiplets/main.md)
+fn talks_to(col: usize, op: &str) -> bool {
+    match col {
+        0 | 1 if op == "NO_HALT_ROW" => true,
+        0 | 1 => matches!(op, "SPLIT" | "LOOP" | "SPAN" | "JOIN" | "DYN" | "SYSCALL" | "CALL" | "END" | "REPEAT" | "RESPAN" | "HALT"),
+        2 => matches!(op, "SPAN" | "RESPAN" | "PUSH"),
+        5 => matches!(op, "MPVERIFY" | "MRUPDATE" | "SYSCALL"),
+        6 => matches!(
+            op,
+            "MLOAD" | "MLOADW" | "MSTORE" | "MSTOREW" | "MSTREAM" | "PIPE" | "RCOMBBASE" | "U32AND" | "U32XOR" | "HPERM" | "MPVERIFY" | "MRUPDATE" | "SPLIT"
+                | "LOOP" | "SPAN" | "JOIN" | "DYN" | "SYSCALL" | "CALL" | "END" | "RESPAN"
+        ),
+        _ => false,
+    }
+}
+
+struct Outcome12 {
+    name: String,
+    case: Value,
+    ops: BTreeSet<&'static str>,
+    /// columns missing their terminal / initial value (for any challenge vector)
+    bad_cols: BTreeMap<usize, String>,
+    /// layer-1 problems: (bus, detail)
+    l1: Vec<(String, String)>,
+    rows: u64,
+    error: Option<String>,
+}
+
+fn q(v: Felt) -> Q {
+    Q::from(v)
+}
+
+fn analyse(case: &ProgCase, challenges: &[Vec<Q>]) -> Outcome12 {
+    let cj = json!({"name": case.name, "src": case.src, "kernel": case.kernel, "stack": case.stack, "advice": case.advice, "merkle": !case.merkle_leaves.is_empty()});
+    let mut out = Outcome12 { name: case.name.clone(), case: cj, ops: BTreeSet::new(), bad_cols: BTreeMap::new(), l1: vec![], rows: 0, error: None };
+    let program = match mcx::guard::catch(|| case.assembler().compile(&case.src)) {
+        Ok(Ok(p)) => p,
+        _ => {
+            out.error = Some("family_program_does_not_assemble".into());
+            return out;
+        }
+    };
+    let mut trace = match exec_trace(&program, &case.stack, case.advice_inputs(), processor::ExecutionOptions::default()) {
+        Ok(Ok(t)) => t,
+        _ => {
+            out.error = Some("family_program_does_not_execute".into());
+            return out;
+        }
+    };
+    let n = trace.length();
+    out.rows = n as u64;
+    let cycles = trace.trace_len_summary().main_trace_len();
+    let ph: [Felt; 4] = program.hash().into();
+    // ---- layer 2 ----------------------------------------------------------------------------
+    for ch in challenges {
+        let aux = match mcx::guard::catch(|| trace.build_aux_segment::<Q>(&[], ch)) {
+            Ok(Some(a)) => a,
+            Ok(None) => {
+                out.error = Some("no_aux_segment".into());
+                return out;
+            }
+            Err(p) => {
+                out.error = Some(format!("aux_segment_panic: {}", mcx::guard::short_panic(&p)));
+                return out;
+            }
+        };
+        let main = trace.main_segment();
+        let last = n - 2;
+        let one = Q::ONE;
+        // expected (first, last) per column; None = asserted by the AIR (checked by C03)
+        let p2_init = ch[0] + ch[2] * q(ph[0]) + ch[3] * q(ph[1]) + ch[4] * q(ph[2]) + ch[5] * q(ph[3]);
+        // kernel procedure table: product over the distinct (addr, root) rows of the kernel ROM
+        let mut seen_addr = BTreeSet::new();
+        let mut vt_final = one;
+        for r in 0..n - 1 {
+            let s = |i: usize| main.get(CHIP + i, r).as_int();
+            if s(0) == 1 && s(1) == 1 && s(2) == 1 && s(3) == 0 {
+                let addr = main.get(CHIP + 5, r);
+                if seen_addr.insert(addr.as_int()) {
+                    let mut v = ch[0] + ch[1] * q(addr);
+                    for k in 0..4 {
+                        v += ch[k + 2] * q(main.get(CHIP + 6 + k, r));
+                    }
+                    vt_final *= v;
+                }
+            }
+        }
+        let expect: [(Option<Q>, Option<Q>); 7] =
+            [(Some(one), Some(one)), (Some(p2_init), Some(one)), (Some(one), Some(one)), (None, None), (None, None), (Some(one), Some(vt_final)), (Some(one), Some(one))];
+        for (c, (f, l)) in expect.iter().enumerate() {
+            if let Some(f) = f {
+                if aux.get(c, 0) != *f {
+                    out.bad_cols.entry(c).or_insert_with(|| "initial value".to_string());
+                }
+            }
+            if let Some(l) = l {
+                if aux.get(c, last) != *l {
+                    out.bad_cols.entry(c).or_insert_with(|| "terminal value".to_string());
+                }
+            }
+        }
+    }
+    // ---- executed operations -----------------------------------------------------------------
+    let main = trace.main_segment();
+    let g = |c: usize, r: usize| main.get(c, r).as_int();
+    let opcode = |r: usize| -> u8 {
+        let mut o = 0u8;
+        for b in 0..7 {
+            o |= ((g(OPB + b, r) & 1) as u8) << b;
+        }
+        o
+    };
+    if cycles + 1 == n {
+        // the executed cycles fill the trace up to the random row: no HALT row follows the last END
+        out.ops.insert("NO_HALT_ROW");
+    }
+    for r in 0..cycles {
+        let nme = opname(opcode(r));
+        if !nme.is_empty() {
+            out.ops.insert(nme);
+        }
+    }
+    // ---- layer 1: memory -----------------------------------------------------------------------
+    // requests: (ctx, addr, clk, is_read, [word or first element]); element accesses carry v0 only
+    let mut req_proj: BTreeMap<(u64, u64, u64, bool, u64), i64> = BTreeMap::new();
+    let mut req_word: BTreeMap<(u64, u64, u64), [u64; 4]> = BTreeMap::new();
+    for r in 0..cycles {
+        let (ctx, clk) = (g(CTXC, r), g(CLK, r));
+        let s = |i: usize| g(S0 + i, r);
+        let sn = |i: usize| g(S0 + i, r + 1);
+        match opname(opcode(r)) {
+            "MLOAD" => *req_proj.entry((ctx, s(0), clk, true, sn(0))).or_insert(0) += 1,
+            "MSTORE" => *req_proj.entry((ctx, s(0), clk, false, sn(0))).or_insert(0) += 1,
+            "MLOADW" | "MSTOREW" => {
+                let w = [sn(3), sn(2), sn(1), sn(0)];
+                let rd = opname(opcode(r)) == "MLOADW";
+                *req_proj.entry((ctx, s(0), clk, rd, w[0])).or_insert(0) += 1;
+                req_word.insert((ctx, s(0), clk), w);
+            }
+            "MSTREAM" | "PIPE" => {
+                let rd = opname(opcode(r)) == "MSTREAM";
+                let a = s(12);
+                let w1 = [sn(7), sn(6), sn(5), sn(4)];
+                let w2 = [sn(3), sn(2), sn(1), sn(0)];
+                *req_proj.entry((ctx, a, clk, rd, w1[0])).or_insert(0) += 1;
+                *req_proj.entry((ctx, a + 1, clk, rd, w2[0])).or_insert(0) += 1;
+                req_word.insert((ctx, a, clk), w1);
+                req_word.insert((ctx, a + 1, clk), w2);
+            }
+            _ => {}
+        }
+    }
+    let mut mem_rows = 0u64;
+    let mut range_req: BTreeMap<u64, i64> = BTreeMap::new();
+    for r in 0..n - 1 {
+        let s = |i: usize| g(CHIP + i, r);
+        if s(0) == 1 && s(1) == 1 && s(2) == 0 {
+            mem_rows += 1;
+            let rd = g(CHIP + 3, r) == 1;
+            let (ctx, addr, clk) = (g(CHIP + 5, r), g(CHIP + 6, r), g(CHIP + 7, r));
+            let w = [g(CHIP + 8, r), g(CHIP + 9, r), g(CHIP + 10, r), g(CHIP + 11, r)];
+            *req_proj.entry((ctx, addr, clk, rd, w[0])).or_insert(0) -= 1;
+            if let Some(rw) = req_word.remove(&(ctx, addr, clk)) {
+                if rw != w {
+                    out.l1.push(("memory".into(), format!("word at ctx {ctx} addr {addr} clk {clk}: stack side {rw:?}, chiplet {w:?}")));
+                }
+            }
+            // the memory chiplet requests range checks of its delta limbs d0, d1
+            *range_req.entry(g(CHIP + 12, r)).or_insert(0) += 1;
+            *range_req.entry(g(CHIP + 13, r)).or_insert(0) += 1;
+        }
+    }
+    for (k, v) in req_proj.iter().filter(|(_, v)| **v != 0) {
+        // RCOMBBASE requests are not decoded here: skip programs that use it
+        if !out.ops.contains("RCOMBBASE") {
+            out.l1.push(("memory".into(), format!("access {k:?}: requests - responses = {v}")));
+        }
+    }
+    // ---- layer 1: bitwise ----------------------------------------------------------------------
+    let mut bw: BTreeMap<(u64, u64, u64, u64), i64> = BTreeMap::new();
+    for r in 0..cycles {
+        let o = opname(opcode(r));
+        if o == "U32AND" || o == "U32XOR" {
+            // the operands are compared as an unordered pair: u32_ops.md writes the request as
+            // (s0, s1), the processor sends (s1, s0) on both sides, and AND / XOR are commutative
+            let (a, b) = (g(S0, r).min(g(S0 + 1, r)), g(S0, r).max(g(S0 + 1, r)));
+            *bw.entry(((o == "U32XOR") as u64, a, b, g(S0, r + 1))).or_insert(0) += 1;
+        }
+    }
+    let mut first_bitwise = None;
+    for r in 0..n - 1 {
+        if g(CHIP, r) == 1 && g(CHIP + 1, r) == 0 {
+            let fb = *first_bitwise.get_or_insert(r);
+            if (r - fb) % 8 == 7 {
+                let (a, b) = (g(CHIP + 3, r).min(g(CHIP + 4, r)), g(CHIP + 3, r).max(g(CHIP + 4, r)));
+                *bw.entry((g(CHIP + 2, r), a, b, g(CHIP + 14, r))).or_insert(0) -= 1;
+            }
+        }
+    }
+    for (k, v) in bw.iter().filter(|(_, v)| **v != 0) {
+        out.l1.push(("bitwise".into(), format!("(op, a, b, z) = {k:?}: requests - responses = {v}")));
+    }
+    // ---- layer 1: range checker ----------------------------------------------------------------
+    for r in 0..cycles {
+        if matches!(opname(opcode(r)), "U32ADD" | "U32SUB" | "U32MUL" | "U32DIV" | "U32SPLIT" | "U32ASSERT2" | "U32ADD3" | "U32MADD") {
+            for k in 0..4 {
+                *range_req.entry(g(HELPER0 + k, r)).or_insert(0) += 1;
+            }
+        }
+    }
+    for r in 0..n - 1 {
+        let m = g(RANGE_M, r);
+        if m != 0 {
+            *range_req.entry(g(RANGE_V, r)).or_insert(0) -= m as i64;
+        }
+    }
+    for (k, v) in range_req.iter().filter(|(_, v)| **v != 0) {
+        out.l1.push(("range".into(), format!("value {k}: requests - table multiplicity = {v}")));
+    }
+    // ---- layer 1: kernel ROM -------------------------------------------------------------------
+    let mut kr: BTreeMap<[u64; 4], i64> = BTreeMap::new();
+    for r in 0..cycles {
+        if opname(opcode(r)) == "SYSCALL" {
+            *kr.entry([g(DEC_H, r), g(DEC_H + 1, r), g(DEC_H + 2, r), g(DEC_H + 3, r)]).or_insert(0) += 1;
+        }
+    }
+    for r in 0..n - 1 {
+        let s = |i: usize| g(CHIP + i, r);
+        if s(0) == 1 && s(1) == 1 && s(2) == 1 && s(3) == 0 && g(CHIP + 4, r) == 1 {
+            *kr.entry([g(CHIP + 6, r), g(CHIP + 7, r), g(CHIP + 8, r), g(CHIP + 9, r)]).or_insert(0) -= 1;
+        }
+    }
+    for (k, v) in kr.iter().filter(|(_, v)| **v != 0) {
+        out.l1.push(("kernel_rom".into(), format!("procedure {k:?}: syscalls - flagged kernel ROM rows = {v}")));
+    }
+    let _ = mem_rows;
+    out
+}
+
+pub fn run(ctx: &Ctx, replay: Option<&Value>) -> i32 {
+    let k = ctx.tier.pick(2, 4);
+    let challenges = airx::challenge_vectors(ctx.seed, k);
+    let fam: Vec<ProgCase> = if let Some(case) = replay {
+        let u = |v: &Value| -> Vec<u64> { v.as_array().map(|a| a.iter().map(|x| x.as_u64().unwrap()).collect()).unwrap_or_default() };
+        println!("note: attribution uses the whole family; the replay re-analyses this program within it");
+        let mut f = crate::c03::family(ctx);
+        f.insert(
+            0,
+            ProgCase {
+                name: format!("replay:{}", case["name"].as_str().unwrap_or("")),
+                src: case["src"].as_str().unwrap().into(),
+                kernel: case["kernel"].as_str().map(String::from),
+                stack: u(&case["stack"]),
+                advice: u(&case["advice"]),
+                merkle_leaves: if case["merkle"].as_bool().unwrap_or(false) { progs::MERKLE_LEAVES.to_vec() } else { vec![] },
+                tags: vec![],
+            },
+        );
+        f
+    } else {
+        crate::c03::family(ctx)
+    };
+    let results: Vec<Outcome12> = fam.par_iter().map(|c| analyse(c, &challenges)).collect();
+
+    // attribution (greedy cover, deterministic): operations are ranked per column by the share of
+    // programs executing them in which the column fails; an operation becomes a suspect if the column
+    // fails in at least a quarter of the programs that execute it and no higher-ranked suspect (so an
+    // operation that merely co-occurs with a defective one is exonerated by the programs in which it
+    // occurs without it; one that never occurs without a suspect is reported as `masked`)
+    let mut executed_in: BTreeMap<(usize, &'static str), (u64, u64)> = BTreeMap::new(); // (programs, failing programs)
+    for r in &results {
+        for c in 0..7 {
+            for o in r.ops.iter().filter(|o| talks_to(c, o)) {
+                let e = executed_in.entry((c, *o)).or_insert((0, 0));
+                e.0 += 1;
+                if r.bad_cols.contains_key(&c) {
+                    e.1 += 1;
+                }
+            }
+        }
+    }
+    let mut suspects: BTreeSet<(usize, &'static str)> = BTreeSet::new();
+    let mut masked: BTreeSet<(usize, &'static str)> = BTreeSet::new();
+    for c in 0..7 {
+        let mut ranked: Vec<(&'static str, u64, u64)> = executed_in.iter().filter(|((cc, _), (_, f))| *cc == c && *f > 0).map(|((_, o), (n, f))| (*o, *n, *f)).collect();
+        ranked.sort_by(|x, y| (y.2 * x.1).cmp(&(x.2 * y.1)).then(x.0.cmp(y.0)));
+        for (o, _, _) in ranked {
+            let mut n = 0u64;
+            let mut f = 0u64;
+            for r in results.iter().filter(|r| r.ops.contains(o) && !r.ops.iter().any(|x| suspects.contains(&(c, *x)))) {
+                n += 1;
+                if r.bad_cols.contains_key(&c) {
+                    f += 1;
+                }
+            }
+            if n == 0 {
+                masked.insert((c, o));
+            } else if 4 * f >= n {
+                suspects.insert((c, o));
+            }
+        }
+    }
+    let suspect = |c: usize, o: &str| suspects.iter().any(|(cc, oo)| *cc == c && *oo == o);
+    let mut col_fail = [0u64; 7];
+    let mut rows = 0u64;
+    for r in &results {
+        rows += r.rows;
+        if let Some(e) = &r.error {
+            ctx.fail(json!({"kind": e.split(':').next().unwrap()}), format!("{}: {e}", r.name), r.case.clone());
+            continue;
+        }
+        for (c, what) in &r.bad_cols {
+            col_fail[*c] += 1;
+            let offenders: Vec<&str> = r.ops.iter().filter(|o| talks_to(*c, o) && suspect(*c, o)).cloned().collect();
+            let talking: Vec<&&str> = r.ops.iter().filter(|o| talks_to(*c, o)).collect();
+            if offenders.is_empty() {
+                ctx.fail(
+                    json!({"kind": "column_does_not_reach_its_specified_value", "column": COLS[*c], "offender": "unexplained"}),
+                    format!("{}: {} misses its {what}; operations talking to it: {talking:?}", r.name, COLS[*c]),
+                    r.case.clone(),
+                );
+            }
+            // one record per offending operation, so that each (column, operation) is matched on its own
+            for o in offenders {
+                ctx.fail(
+                    json!({"kind": "column_does_not_reach_its_specified_value", "column": COLS[*c], "offender": o}),
+                    format!("{}: {} misses its {what}; operations talking to it: {talking:?}", r.name, COLS[*c]),
+                    r.case.clone(),
+                );
+            }
+        }
+        for (bus, detail) in r.l1.iter().take(3) {
+            ctx.fail(json!({"kind": "requests_and_responses_differ", "bus": bus}), format!("{}: {detail}", r.name), r.case.clone());
+        }
+    }
+    if replay.is_some() {
+        return ctx.finish("exploration", json!({}), &[]);
+    }
+    for r in results.iter().step_by(results.len() / 5 + 1) {
+        ctx.sample(json!({"name": r.name, "operations_talking_to_buses": r.ops.iter().collect::<Vec<_>>()}));
+    }
+    let attribution: BTreeMap<String, Value> = executed_in.iter().map(|((c, o), (n, f))| (format!("{} {}", COLS[*c], o), json!({"programs": n, "failing": f}))).collect();
+    let cov = json!({
+        "evaluations": results.len() * k,
+        "distinct_nontrivial": results.iter().filter(|r| !r.ops.is_empty()).count(),
+        "rule": "case = (program, challenge vector); non-trivial = the program executes at least one operation that talks to a bus or table (all programs: SPAN / END at least)",
+        "programs": results.len(),
+        "challenge_vectors": k,
+        "rows": rows,
+        "columns_checked": COLS,
+        "programs_failing_per_column": COLS.iter().zip(col_fail.iter()).map(|(c, n)| (c.to_string(), *n)).collect::<BTreeMap<_, _>>(),
+        "attribution(column operation -> programs executing it / failing)": attribution,
+        "suspects(column, operation)": suspects.iter().map(|(c, o)| format!("{} {}", COLS[*c], o)).collect::<Vec<_>>(),
+        "masked(operation never occurs without a suspect)": masked.iter().map(|(c, o)| format!("{} {}", COLS[*c], o)).collect::<Vec<_>>(),
+        "layer1_buses": ["memory (projected + full words)", "bitwise", "range (u32 helper limbs + memory deltas vs multiplicities)", "kernel_rom"],
+        "exhaustive": true,
+        "bounds": "families P1 + shapes (+ P2 in the thorough tier); K stated challenge vectors",
+    });
+    ctx.finish("exploration", cov, &[
+        "hasher-bus messages and the decoder tables are covered by the terminal values (layer 2) and feature attribution, not by a challenge-free recount",
+        "stack overflow table and b_range boundary values are asserted by the AIR itself and checked by C03",
+        "K stated challenge vectors stand for 'any verifier challenge'",
+    ])
 }
